@@ -17,3 +17,6 @@ func (t *timer) verifArm(d time.Duration) time.Duration { return d }
 // verifAdopt and verifRestretch do nothing outside verification builds.
 func verifAdopt(t *time.Timer, d time.Duration, w *sleep.Waker) {}
 func verifRestretch(t *time.Timer, d time.Duration)             {}
+
+// verifNotIdle does nothing outside verification builds.
+func (s *sender) verifNotIdle() {}
